@@ -344,80 +344,75 @@ def r4_fallback(ctx):
 
 
 def r5_groups_obey(ctx):
+    """Decided on the iteration table of the selector (rules/selmodel.py)."""
+    from rules import selmodel
+    from vk.algebra import implies, spec_guard
     prog = ctx.prog
-    f = prog.find_func("elect_cands_from_set_ranking")
-    # single-assignment temporaries (tied = ranking[i]; seats_left = m - count) are read through, unless stale
-    N = Normalizer(f.node, inline=True, int_atoms=lambda a: True)
+    m = selmodel.model(prog)
+    f = m.f
     calls = astx.calls_in(f.node, "tiebreak_set")
     if len(calls) != 1:
         ctx.undecided(f, f.node, "selector tiebreak site", f"{len(calls)} tiebreak_set calls in the selector")
         return
     pm = astx.parents(f.node)
     st = astx.stmt_of(calls[0], pm)
-    T = st.targets[0].id if isinstance(st, ast.Assign) and isinstance(st.targets[0], ast.Name) else None
-    # roles, found by what the variables do (not by how they are called)
-    R, M = f.params[0], f.params[1]
-    loops_ = [n for n in astx.walk_own(f.node) if isinstance(n, ast.While)]
-    CNT = next((n.id for l in loops_ for n in ast.walk(l.test) if isinstance(n, ast.Name) and n.id != M), None)
-    E = None
-    for l in loops_:
-        for c_ in astx.calls_in(l, "append", own_only=False):
-            if isinstance(c_.func.value, ast.Name) and c_.args and re.fullmatch(rf"{R}\[\w+\]", N.key(c_.args[0])):
-                E = c_.func.value.id
-    if CNT is None or E is None:
-        ctx.undecided(f, f.node, "selector roles", "cannot identify the elected list / running count of the selector loop")
+    if m.loop is None or m.CNT is None or (m.problem and m.E is None):
+        ctx.undecided(f, f.node, "selector roles", m.problem or "cannot identify the elected list / running count of the selector loop")
         return
     if astx.enclosing(st, pm, ast.While) is None:
-        ctx.undecided(f, st, "selector shape", "the boundary tie is resolved outside the election loop: not the append / overshoot / take-back arrangement these clauses describe")
+        ctx.undecided(f, st, "selector shape", "the boundary tie is resolved outside the election loop: not the arrangement these clauses describe")
         return
-    subs = [n for n in astx.walk_own(f.node) if isinstance(n, ast.Subscript) and astx.is_name(n.value, T) and isinstance(n.slice, ast.Slice)]
-    pre = [s for s in subs if s.slice.lower is None and s.slice.upper is not None]
-    suf = [s for s in subs if s.slice.lower is not None and s.slice.upper is None]
-    good = len(pre) == 1 and len(suf) == 1 and N.key(pre[0].slice.upper) == N.key(suf[0].slice.lower)
+    if m.problem:
+        ctx.undecided(f, m.loop, "selector shape", m.problem)
+        return
+    R, M, CNT, E, I = m.R, m.M, m.CNT, m.E, m.I
+    N = m.N()
+    rets = m.kinds("return")
+    open_seats = f"{M} - {CNT}"
+    split_ok = bool(rets)
+    taken_back = bool(rets)
+    cont_ok = bool(rets)
+    with_cont = 0
     where = ""
-    if good:
-        # prefix goes to elected (+=/extend), suffix starts remaining
-        pst, sst = astx.stmt_of(pre[0], pm), astx.stmt_of(suf[0], pm)
-        pre_to = astx.u(pst.target) if isinstance(pst, ast.AugAssign) else ""
-        if isinstance(pst, ast.Expr) and isinstance(pst.value, ast.Call) and isinstance(pst.value.func, ast.Attribute) and pst.value.func.attr == "extend":
-            pre_to = astx.u(pst.value.func.value)  # L.extend(X) adds X at the end of L, like L += X
-        suf_to = astx.u(sst.targets[0]) if isinstance(sst, ast.Assign) else ""
-        rets = [r for r in astx.walk_own(f.node) if isinstance(r, ast.Return) and astx.enclosing(r, pm, ast.While)]
-        comp = rets[0].value.elts if rets and isinstance(rets[0].value, ast.Tuple) else []
-        good = len(comp) == 3 and astx.u(astx.strip_wrappers(comp[0])) == pre_to == E and astx.u(astx.strip_wrappers(comp[1])) == suf_to
-        where = f"elected gets {T}[:{N.key(pre[0].slice.upper)}], remaining starts with {T}[{N.key(suf[0].slice.lower)}:]"
-        # split point = seats still open: m - (count before the tied group)
-        good = good and N.key(pre[0].slice.upper) in (f"{M} - {CNT}", f"-{CNT} + {M}")
-    ctx.check(bool(good), f, st, "resolution split prefix->elected, suffix->remaining at one point", where,
-              "the tiebreak resolution is not split at a single point into elected prefix / remaining suffix")
-    # the tied group is taken back out (pop + count restored) before the split
-    if T is not None:
-        blk = pm[st]
-        seq = blk.orelse if st in getattr(blk, "orelse", []) else blk.body
-        before = [astx.u(x) for x in seq[: seq.index(st)]]
-        cnt = None
-        for x in seq[: seq.index(st)]:
-            if isinstance(x, ast.AugAssign) and isinstance(x.op, ast.Sub) and isinstance(x.target, ast.Name):
-                cnt = x
-        tied = N.key(calls[0].args[0]) if calls[0].args else ""
-        good = any(b in (f"{E}.pop(-1)", f"{E}.pop()") for b in before) and cnt is not None and cnt.target.id == CNT and N.key(cnt.value) == f"len({tied})" \
-            and N.key(pre[0].slice.upper) in (f"m - {cnt.target.id}", f"-{cnt.target.id} + m") if (pre and cnt is not None) else False
-        ctx.check(bool(good), f, st, "the straddling group is removed from elected and from the count before its resolution is split", str(before),
-                  f"statements before the tiebreak are {before}; the tied group must be popped and its size subtracted so that m - count seats remain")
-    # remaining continues with the groups after the tied one
-    def _added(n):
-        if isinstance(n, ast.AugAssign) and isinstance(n.op, ast.Add):
-            return n.value
-        if isinstance(n, ast.Expr) and isinstance(n.value, ast.Call) and isinstance(n.value.func, ast.Attribute) and n.value.func.attr == "extend" and len(n.value.args) == 1:
-            return n.value.args[0]
-        return None
-    ext = [n for n in astx.walk_own(f.node) if _added(n) is not None
-           and isinstance(astx.strip_wrappers(_added(n)), ast.Subscript) and isinstance(astx.strip_wrappers(_added(n)).slice, ast.Slice)
-           and astx.is_name(astx.strip_wrappers(_added(n)).value, f.params[0])]
-    k = N.key(astx.strip_wrappers(_added(ext[0]))) if ext else ""
-    ctx.check(bool(re.fullmatch(rf"{R}\[\w+ \+ 1:\]", k)), f, ext[0] if ext else f.node,
-              "remaining continues with the groups after the tied one", k, f"continuation is `{k}`; specified ranking[i + 1:]")
+    for o in rets:
+        T = selmodel.tie_call(m, o)
+        comps = selmodel.components(m, o)
+        if T is None or comps is None:
+            split_ok = taken_back = cont_ok = False
+            where = "the returned tuple is not (elected, remaining, (tied group, resolution))"
+            continue
+        el, rem = comps
+        pre = selmodel.slice_of(el.segs[-1], T) if el.segs else None
+        suf = selmodel.slice_of(rem.segs[0], T) if rem.segs else None
+        where = f"elected = {el.text()[:120]}; remaining = {rem.text()[:120]}"
+        # one split point: the prefix T[:k] ends elected, the suffix T[k:] starts remaining, k the same expression
+        one_point = pre is not None and suf is not None and pre[0] is None and suf[1] is None and pre[1] is not None and suf[0] is not None \
+            and N.key(pre[1]) == N.key(suf[0])
+        split_ok = split_ok and one_point
+        # elected is what it was when the iteration began plus that prefix (the straddling group itself is not in it), and
+        # k is the number of seats that were still open then
+        taken_back = taken_back and one_point and el.segs[:-1] == [("base", E)] and m.rat_eq(pre[1], open_seats)
+        # remaining goes on with the groups after the tied one
+        tail = rem.segs[1:]
+        if len(tail) == 1 and tail[0][0] == "seq":
+            t = astx.strip_wrappers(tail[0][1], ("tuple", "list"))
+            okt = isinstance(t, ast.Subscript) and isinstance(t.slice, ast.Slice) and astx.is_name(t.value, R) and t.slice.upper is None and t.slice.step is None \
+                and t.slice.lower is not None and m.rat_eq(t.slice.lower, f"{I} + 1")
+            cont_ok = cont_ok and okt
+            with_cont += 1
+        elif not tail:
+            # without the continuation only where there is provably nothing after the tied group
+            cont_ok = cont_ok and implies(m.cond(o), spec_guard(f"not ({I} < len({R}))", int_atoms=lambda a: True))
+        else:
+            cont_ok = False
+    ctx.check(bool(split_ok), f, st, "resolution split prefix->elected, suffix->remaining at one point", where,
+              f"the tiebreak resolution is not split at a single point into elected prefix / remaining suffix: {where}")
+    ctx.check(bool(taken_back), f, st, "the straddling group is removed from elected and from the count before its resolution is split", where,
+              f"on the tiebreak path {where}; elected must be the groups seated before plus the first {open_seats} of the resolution (the tied group itself taken back, "
+              "its size not counted)")
+    ctx.check(bool(cont_ok and with_cont), f, st, "remaining continues with the groups after the tied one", where, f"on the tiebreak path {where}; specified: resolution suffix, then {R}[{I} + 1:]")
     # no-tie exit: (elected prefix, ranking[i:], None)
+    Ni = Normalizer(f.node, inline=True, int_atoms=lambda a: True)
     rets = [r for r in astx.walk_own(f.node) if isinstance(r, ast.Return) and not astx.enclosing(r, pm, ast.While)]
     good = False
     d = ""
@@ -425,7 +420,7 @@ def r5_groups_obey(ctx):
         e0, e1, e2 = rets[0].value.elts
         d = astx.u(rets[0].value)
         v2 = astx.unique_def(f.node, e2.id) if isinstance(e2, ast.Name) else e2
-        good = bool(re.fullmatch(rf"{R}\[\w+:\]", N.key(e1))) and v2 is not None and astx.is_const(v2, None) and astx.u(astx.strip_wrappers(e0)) == E
+        good = Ni.key(e1) == f"{R}[{I}:]" and v2 is not None and astx.is_const(v2, None) and astx.u(astx.strip_wrappers(e0)) == E
     ctx.check(good, f, rets[0] if rets else f.node, "untied exit returns (elected, ranking[i:], None)", d, f"untied exit returns `{d}`")
 
 
